@@ -6,11 +6,29 @@ import Ladybug.Proofs.C14Spec
 
 namespace LbHeap
 
+/-- What a composite object (Wea, EPW) reads: its own cell, its metadata dict with the nested lists, the
+    cells it only looks at (Location) and everything its member collections read. -/
+def compReads (h : Heap) (c : Nat) (x : Comp) : List Nat :=
+  [c, x.md] ++ mdRefsAt h x.md ++ x.shared ++ x.members.flatMap (reads h)
+
+def compOwned (h : Heap) (c : Nat) (x : Comp) : List Nat :=
+  [c, x.md] ++ mdRefsAt h x.md ++ x.members.flatMap (owned h)
+
+/-- A well-formed composite: its metadata dict and Location exist, its members are well-formed
+    collections that are separated from each other and from the composite's own metadata dict. -/
+def CompTyped (h : Heap) (x : Comp) : Prop :=
+  (∃ m, h.cells x.md = some (.md m) ∧ ∀ r ∈ mdRefs m, ∃ l, h.cells r = some (.mlist l)) ∧
+  (∀ s ∈ x.shared, ∃ t, h.cells s = some (.loc t)) ∧
+  (∀ mb ∈ x.members, Typed h mb) ∧
+  Sep collFP h x.members ∧
+  (∀ mb ∈ x.members, x.md ∉ reads h mb ∧ ∀ r ∈ mdRefsAt h x.md, r ∉ reads h mb)
+
 def readsA (h : Heap) (c : Nat) : List Nat :=
   match h.cells c with
   | some (.coll _) => reads h c
   | some (.vals _ false) => [c]
   | some (.args _) => [c]
+  | some (.comp x) => compReads h c x
   | _ => []
 
 def ownedA (h : Heap) (c : Nat) : List Nat :=
@@ -18,6 +36,7 @@ def ownedA (h : Heap) (c : Nat) : List Nat :=
   | some (.coll _) => owned h c
   | some (.vals _ false) => [c]
   | some (.args _) => [c]
+  | some (.comp x) => compOwned h c x
   | _ => []
 
 def TypedA (h : Heap) (c : Nat) : Prop :=
@@ -25,7 +44,50 @@ def TypedA (h : Heap) (c : Nat) : Prop :=
   | some (.coll _) => Typed h c
   | some (.vals _ false) => True
   | some (.args _) => True
+  | some (.comp x) => CompTyped h x
   | _ => False
+
+theorem flatMap_congr' {α β : Type} {l : List α} {f g : α → List β} (hfg : ∀ a ∈ l, f a = g a) :
+    l.flatMap f = l.flatMap g := by
+  induction l with
+  | nil => rfl
+  | cons a t ih =>
+    simp only [List.flatMap_cons]
+    rw [hfg a (by simp), ih (fun b hb => hfg b (List.mem_cons_of_mem _ hb))]
+
+theorem mem_compReads {h : Heap} {c : Nat} {x : Comp} {r : Nat} :
+    r ∈ compReads h c x ↔ r = c ∨ r = x.md ∨ r ∈ mdRefsAt h x.md ∨ r ∈ x.shared ∨
+      ∃ mb ∈ x.members, r ∈ reads h mb := by
+  simp only [compReads, List.mem_append, List.mem_cons, List.not_mem_nil, or_false, List.mem_flatMap]
+  constructor
+  · rintro ((((h1 | h1) | h1) | h1) | h1)
+    · exact Or.inl h1
+    · exact Or.inr (Or.inl h1)
+    · exact Or.inr (Or.inr (Or.inl h1))
+    · exact Or.inr (Or.inr (Or.inr (Or.inl h1)))
+    · exact Or.inr (Or.inr (Or.inr (Or.inr h1)))
+  · rintro (h1 | h1 | h1 | h1 | h1)
+    · exact Or.inl (Or.inl (Or.inl (Or.inl h1)))
+    · exact Or.inl (Or.inl (Or.inl (Or.inr h1)))
+    · exact Or.inl (Or.inl (Or.inr h1))
+    · exact Or.inl (Or.inr h1)
+    · exact Or.inr h1
+
+theorem mem_compOwned {h : Heap} {c : Nat} {x : Comp} {r : Nat} :
+    r ∈ compOwned h c x ↔ r = c ∨ r = x.md ∨ r ∈ mdRefsAt h x.md ∨
+      ∃ mb ∈ x.members, r ∈ owned h mb := by
+  simp only [compOwned, List.mem_append, List.mem_cons, List.not_mem_nil, or_false, List.mem_flatMap]
+  constructor
+  · rintro (((h1 | h1) | h1) | h1)
+    · exact Or.inl h1
+    · exact Or.inr (Or.inl h1)
+    · exact Or.inr (Or.inr (Or.inl h1))
+    · exact Or.inr (Or.inr (Or.inr h1))
+  · rintro (h1 | h1 | h1 | h1)
+    · exact Or.inl (Or.inl (Or.inl h1))
+    · exact Or.inl (Or.inl (Or.inr h1))
+    · exact Or.inl (Or.inr h1)
+    · exact Or.inr h1
 
 theorem self_mem_reads {h : Heap} {c : Nat} (ty : Typed h c) : c ∈ reads h c := by
   obtain ⟨k, hd, m, a, v, t, e1, e2, e3, _⟩ := ty
@@ -34,25 +96,27 @@ theorem self_mem_reads {h : Heap} {c : Nat} (ty : Typed h c) : c ∈ reads h c :
 /-- The kinds of live objects. -/
 theorem typedA_cases {h : Heap} {c : Nat} (ty : TypedA h c) :
     (∃ k, h.cells c = some (.coll k) ∧ Typed h c) ∨ (∃ v, h.cells c = some (.vals v false)) ∨
-    (∃ l, h.cells c = some (.args l)) := by
+    (∃ l, h.cells c = some (.args l)) ∨ (∃ x, h.cells c = some (.comp x) ∧ CompTyped h x) := by
   unfold TypedA at ty
   split at ty
   · rename_i k hk; exact Or.inl ⟨k, hk, ty⟩
   · rename_i v hk; exact Or.inr (Or.inl ⟨v, hk⟩)
-  · rename_i l hk; exact Or.inr (Or.inr ⟨l, hk⟩)
+  · rename_i l hk; exact Or.inr (Or.inr (Or.inl ⟨l, hk⟩))
+  · rename_i x hk; exact Or.inr (Or.inr (Or.inr ⟨x, hk, ty⟩))
   · exact ty.elim
 
 theorem self_mem_readsA {h : Heap} {c : Nat} (ty : TypedA h c) : c ∈ readsA h c := by
-  rcases typedA_cases ty with ⟨k, hk, ty'⟩ | ⟨v, hk⟩ | ⟨l, hk⟩
+  rcases typedA_cases ty with ⟨k, hk, ty'⟩ | ⟨v, hk⟩ | ⟨l, hk⟩ | ⟨x, hk, _⟩
   · simp only [readsA, hk]; exact self_mem_reads ty'
   · simp [readsA, hk]
   · simp [readsA, hk]
+  · simp only [readsA, hk]; exact mem_compReads.2 (Or.inl rfl)
 
 theorem congrA {h h' : Heap} {c : Nat} (ty : TypedA h c)
     (same : ∀ r ∈ readsA h c, h'.cells r = h.cells r) :
     obsA h' c = obsA h c ∧ readsA h' c = readsA h c ∧ ownedA h' c = ownedA h c ∧ TypedA h' c := by
   have hc := same c (self_mem_readsA ty)
-  rcases typedA_cases ty with ⟨k, hk, ty'⟩ | ⟨v, hk⟩ | ⟨l, hk⟩
+  rcases typedA_cases ty with ⟨k, hk, ty'⟩ | ⟨v, hk⟩ | ⟨l, hk⟩ | ⟨x, hk, ty'⟩
   · have hk' : h'.cells c = some (.coll k) := by rw [hc]; exact hk
     have same' : ∀ r ∈ reads h c, h'.cells r = h.cells r := by
       intro r hr; apply same; simp only [readsA, hk]; exact hr
@@ -63,14 +127,64 @@ theorem congrA {h h' : Heap} {c : Nat} (ty : TypedA h c)
     simp [obsA, readsA, ownedA, TypedA, hk, hk']
   · have hk' : h'.cells c = some (.args l) := by rw [hc]; exact hk
     simp [obsA, readsA, ownedA, TypedA, hk, hk']
+  · have hk' : h'.cells c = some (.comp x) := by rw [hc]; exact hk
+    have same' : ∀ r ∈ compReads h c x, h'.cells r = h.cells r := by
+      intro r hr; apply same; simp only [readsA, hk]; exact hr
+    obtain ⟨⟨m, hm, hn⟩, hsh, hmem, hsep, hmd⟩ := ty'
+    have smd : h'.cells x.md = some (.md m) := by
+      rw [same' x.md (mem_compReads.2 (Or.inr (Or.inl rfl)))]; exact hm
+    have mra : mdRefsAt h x.md = mdRefs m := by simp [mdRefsAt, hm]
+    have mra' : mdRefsAt h' x.md = mdRefs m := by simp [mdRefsAt, smd]
+    have sn : ∀ r ∈ mdRefs m, h'.cells r = h.cells r :=
+      fun r hr => same' r (mem_compReads.2 (Or.inr (Or.inr (Or.inl (by rw [mra]; exact hr)))))
+    have ssh : ∀ r ∈ x.shared, h'.cells r = h.cells r :=
+      fun r hr => same' r (mem_compReads.2 (Or.inr (Or.inr (Or.inr (Or.inl hr)))))
+    have smem : ∀ mb ∈ x.members, obs h' mb = obs h mb ∧ reads h' mb = reads h mb ∧
+        owned h' mb = owned h mb ∧ Typed h' mb :=
+      fun mb hmb => obs_congr (hmem mb hmb) fun r hr =>
+        same' r (mem_compReads.2 (Or.inr (Or.inr (Or.inr (Or.inr ⟨mb, hmb, hr⟩)))))
+    have ro : compReads h' c x = compReads h c x ∧ compOwned h' c x = compOwned h c x := by
+      simp only [compReads, compOwned, mra, mra']
+      rw [flatMap_congr' (fun mb hmb => (smem mb hmb).2.1), flatMap_congr' (fun mb hmb => (smem mb hmb).2.2.1)]
+      exact ⟨rfl, rfl⟩
+    have ob : obsComp h' x = obsComp h x := by
+      simp only [obsComp, hm, smd, obsMeta_congr sn]
+      congr 1
+      · apply List.map_congr_left
+        intro r hr; simp only [getLoc, ssh r hr]
+      · apply List.map_congr_left
+        intro mb hmb; exact (smem mb hmb).1
+    simp only [obsA, readsA, ownedA, TypedA, hk, hk']
+    refine ⟨by rw [ob], ro.1, ro.2, ⟨m, smd, fun r hr => ?_⟩, fun r hr => ?_, fun mb hmb => (smem mb hmb).2.2.2,
+      ?_, fun mb hmb => ?_⟩
+    · obtain ⟨l, hl⟩ := hn r hr; exact ⟨l, by rw [sn r hr]; exact hl⟩
+    · obtain ⟨t, ht⟩ := hsh r hr; exact ⟨t, by rw [ssh r hr]; exact ht⟩
+    · intro a ha b hb nab r hr hr'
+      change r ∈ owned h' a at hr
+      change r ∈ reads h' b at hr'
+      rw [(smem a ha).2.2.1] at hr
+      rw [(smem b hb).2.1] at hr'
+      exact hsep a ha b hb nab r hr hr'
+    · rw [(smem mb hmb).2.1, mra']
+      rw [mra] at hmd
+      exact hmd mb hmb
 
 theorem ltA {h : Heap} {c : Nat} (wf : WF h) (ty : TypedA h c) : ∀ r ∈ readsA h c, r < h.next := by
-  rcases typedA_cases ty with ⟨k, hk, ty'⟩ | ⟨v, hk⟩ | ⟨l, hk⟩
+  rcases typedA_cases ty with ⟨k, hk, ty'⟩ | ⟨v, hk⟩ | ⟨l, hk⟩ | ⟨x, hk, ty'⟩
   · simp only [readsA, hk]; exact reads_lt wf ty'
   · simp only [readsA, hk]; intro r hr
     simp only [List.mem_cons, List.not_mem_nil, or_false] at hr; subst hr; exact lt_next_of_some wf hk
   · simp only [readsA, hk]; intro r hr
     simp only [List.mem_cons, List.not_mem_nil, or_false] at hr; subst hr; exact lt_next_of_some wf hk
+  · simp only [readsA, hk]; intro r hr
+    obtain ⟨⟨m, hm, hn⟩, hsh, hmem, _, _⟩ := ty'
+    rcases mem_compReads.1 hr with h1 | h1 | h1 | h1 | ⟨mb, hmb, h1⟩
+    · rw [h1]; exact lt_next_of_some wf hk
+    · rw [h1]; exact lt_next_of_some wf hm
+    · simp only [mdRefsAt, hm] at h1
+      obtain ⟨l, hl⟩ := hn r h1; exact lt_next_of_some wf hl
+    · obtain ⟨t, ht⟩ := hsh r h1; exact lt_next_of_some wf ht
+    · exact reads_lt wf (hmem mb hmb) r h1
 
 theorem subA {h : Heap} {c : Nat} : ∀ r ∈ ownedA h c, r ∈ readsA h c := by
   unfold ownedA readsA
@@ -78,10 +192,26 @@ theorem subA {h : Heap} {c : Nat} : ∀ r ∈ ownedA h c, r ∈ readsA h c := by
   · exact owned_sub_reads
   · exact fun _ hr => hr
   · exact fun _ hr => hr
+  · intro r hr
+    rcases mem_compOwned.1 hr with h1 | h1 | h1 | ⟨mb, hmb, h1⟩
+    · exact mem_compReads.2 (Or.inl h1)
+    · exact mem_compReads.2 (Or.inr (Or.inl h1))
+    · exact mem_compReads.2 (Or.inr (Or.inr (Or.inl h1)))
+    · exact mem_compReads.2 (Or.inr (Or.inr (Or.inr (Or.inr ⟨mb, hmb, owned_sub_reads r h1⟩))))
   · exact fun _ hr => hr
 
 theorem kindA {h : Heap} {c : Nat} (ty : TypedA h c) : ∀ r ∈ ownedA h c, ¬ Shareable h r := by
-  rcases typedA_cases ty with ⟨k, hk, ty'⟩ | ⟨v, hk⟩ | ⟨l, hk⟩
+  rcases typedA_cases ty with ⟨k, hk, ty'⟩ | ⟨v, hk⟩ | ⟨l, hk⟩ | ⟨x, hk, ty'⟩
+  rotate_right
+  · simp only [ownedA, hk]; intro r hr sh
+    obtain ⟨⟨m, hm, hn⟩, _, hmem, _, _⟩ := ty'
+    rcases mem_compOwned.1 hr with h1 | h1 | h1 | ⟨mb, hmb, h1⟩
+    · subst h1; rcases sh with ⟨_, e⟩ | ⟨_, e⟩ | ⟨_, e⟩ <;> rw [hk] at e <;> cases e
+    · subst h1; rcases sh with ⟨_, e⟩ | ⟨_, e⟩ | ⟨_, e⟩ <;> rw [hm] at e <;> cases e
+    · simp only [mdRefsAt, hm] at h1
+      obtain ⟨l, hl⟩ := hn r h1
+      rcases sh with ⟨_, e⟩ | ⟨_, e⟩ | ⟨_, e⟩ <;> rw [hl] at e <;> cases e
+    · exact owned_kind (hmem mb hmb) r h1 sh
   · simp only [ownedA, hk]; exact owned_kind ty'
   · simp only [ownedA, hk]; intro r hr sh
     simp only [List.mem_cons, List.not_mem_nil, or_false] at hr; subst hr
